@@ -43,7 +43,7 @@ let () = main_loop (fun x ->
   match x with
   | L [L [nf; nc; th; mt; ul]; L [L fs; st; lf; clk]; L ks; L evs] ->
     let c = { nfiles = sx_nat nf; nchunks = sx_nat nc; threshold = sx_nat th; max_tries = sx_nat mt;
-              unlink_on_release = sx_bool ul; cleanup_outside_lock = false; memo_stamp = false } in
+              unlink_on_release = sx_bool ul; cleanup_outside_lock = false; memo_stamp = false; per_process_locks = false } in
     let has_lf = sx_bool lf in
     let s = { files_of = List.map sx_file fs; stamp = sx_stamp st;
               lockfile = (if has_lf then Some O else None); locks = [];
